@@ -1,6 +1,7 @@
 /- Model-driver operations of cluster A (C01 parsing, C02 export, zone-file lines of C09). -/
 import PdbVerif.Driver.Json
 import PdbVerif.Model.Parse
+import PdbVerif.Driver.ExtParse
 
 namespace Driver.ModelA
 open Lean Driver Py
@@ -80,6 +81,6 @@ def op (name : String) (j : Json) : Except String (Option Json) := do
   | "read_zone_line" =>
     let l ← jStr j "line"
     pure (some (exceptJ (fun (c, n) => Json.mkObj [("chain", strJ c), ("num", intJ n)]) (Gen.read_zone_line l.toList)))
-  | _ => pure none
+  | _ => (do match ← ExtParse.op name j with | some r => pure (some r) | none => pure none)
 
 end Driver.ModelA
